@@ -223,6 +223,7 @@ def design_level(rep, devs):
                        ("cex_accept", "JoinBlockedInAccept + UnboundedJoin: with the unwrap repaired, Terminates fails (join waits on a thread in accept())"),
                        ("cex_late", "SessionIgnoresFlag + UnboundedJoin: a session registered after the handlers were invoked keeps the process alive"),
                        ("cex_select", "SignalPanicsDebugThread: the debug thread dies on the shutdown signal"),
+                       ("cex_early", "hypothetical JoinGivesUpEarly: join returns while the debug thread could still end (ThreadEndsUnlessBusy fails)"),
                        ("cex_abort", "HugeMessageAborts: a Content-Length header on the debug port aborts the process"),
                        ("cex_deadjoin", "HandlerPanics + DeadThreadFailsJoin: a debug thread that died earlier makes shutdown exit 101"),
                        ("cex_poison", "HandlerPanicPoisons: a handler panic under the context lock takes the main thread down at its next message"),
